@@ -11,6 +11,10 @@ pub enum Shape {
     BadStartLine(&'static str),
     BadHeader,
     BadLength,
+    /// a header value with bytes that are not UTF-8
+    BadUtf8Header,
+    /// a request target with bytes that are not UTF-8
+    BadUtf8Target,
 }
 
 #[derive(Clone, Debug)]
@@ -26,6 +30,8 @@ impl R {
             Shape::BadStartLine(l) => format!("{}\r\nHost: x\r\n\r\n", l).into_bytes(),
             Shape::BadHeader => format!("{} {} {}\r\nHost x-no-colon\r\n\r\n", self.req.method, self.req.path, self.req.version).into_bytes(),
             Shape::BadLength => format!("{} {} {}\r\nContent-Length: abc\r\n\r\n", self.req.method, self.req.path, self.req.version).into_bytes(),
+            Shape::BadUtf8Header => [format!("{} {} {}\r\nHost: x\r\nX-Name: caf", self.req.method, self.req.path, self.req.version).as_bytes(), &[0xe9, b' ', 0xff, 0xfe][..], b"\r\n\r\n"].concat(),
+            Shape::BadUtf8Target => [format!("{} /r", self.req.method).as_bytes(), &[0xff, 0xc0][..], format!(" {}\r\nHost: x\r\n\r\n", self.req.version).as_bytes()].concat(),
         }
     }
     fn conn(&self) -> Option<String> {
@@ -369,6 +375,8 @@ pub fn malformed() -> Vec<R> {
     }
     v.push(R { req: base.req.clone(), shape: Shape::BadHeader });
     v.push(R { req: base.req.clone(), shape: Shape::BadLength });
+    v.push(R { req: base.req.clone(), shape: Shape::BadUtf8Header });
+    v.push(R { req: base.req.clone(), shape: Shape::BadUtf8Target });
     v
 }
 
